@@ -635,7 +635,7 @@ def replay_failure(prop, fr, h, r, unlisted, src, logdir):
     rep = {"property": prop, "harness": h["id"], "qualified": h["qualified"], "features": h["features"],
            "failures": unlisted, "fragment": fr.name, "functions": h["functions"], "bounds": h["bounds"]}
     ub_only = all(("pointer" in f["description"] or "dereference" in f["description"] or "out of bounds" in f["description"] and "index" not in f["description"]) for f in unlisted)
-    if test is None and not r.get("playback"):
+    if test is None and not r.get("playback") and h.get("no_inputs"):
         # a harness without symbolic inputs gets no playback test from Kani: replay it with an empty value list
         fn = h["name"]
         code = ("#[test]\nfn kani_concrete_playback_%s_noinputs() {\n    let concrete_vals: Vec<Vec<u8>> = vec![];\n"
@@ -643,7 +643,7 @@ def replay_failure(prop, fr, h, r, unlisted, src, logdir):
         test = (unlisted[0], {"code": code, "kind": "assertion", "check": unlisted[0]["description"]})
     if test is None:
         rep["reproduced"] = bool(ub_only and prop == "C15")
-        rep["detail"] = "Kani produced no concrete playback test for the failing check"
+        rep["detail"] = "Kani produced no concrete playback test for the failing check (the playback pass ran out of memory / time, or the trace omitted it)"
         rep["kind"] = "ub-candidate" if rep["reproduced"] else "no-playback"
     else:
         f, t = test
